@@ -9,6 +9,13 @@ from petl.util.base import Table, asindices, itervalues
 from petl.transform.sorts import sort
 
 
+def _itemgetter(*indices):
+    if not indices:
+        # no key fields (a table whose header has no fields)
+        return lambda row: ()
+    return operator.itemgetter(*indices)
+
+
 def duplicates(table, key=None, presorted=False, buffersize=None, tempdir=None, 
                cache=True):
     """
@@ -106,7 +113,7 @@ def iterduplicates(source, key):
     # now use field indices to construct a _getkey function
     # N.B., this may raise an exception on short rows, depending on
     # the field selection
-    getkey = operator.itemgetter(*indices)
+    getkey = _itemgetter(*indices)
     
     previous = None
     previous_yielded = False
@@ -209,7 +216,7 @@ def iterunique(source, key):
     # now use field indices to construct a _getkey function
     # N.B., this may raise an exception on short rows, depending on
     # the field selection
-    getkey = operator.itemgetter(*indices)
+    getkey = _itemgetter(*indices)
 
     try:
         prev = next(it)
@@ -347,7 +354,7 @@ def iterconflicts(source, key, missing, exclude, include):
     # now use field indices to construct a _getkey function
     # N.B., this may raise an exception on short rows, depending on
     # the field selection
-    getkey = operator.itemgetter(*indices)
+    getkey = _itemgetter(*indices)
     
     previous = None
     previous_yielded = False
@@ -432,7 +439,7 @@ class DistinctView(Table):
         # now use field indices to construct a _getkey function
         # N.B., this may raise an exception on short rows, depending on
         # the field selection
-        getkey = operator.itemgetter(*indices)
+        getkey = _itemgetter(*indices)
 
         INIT = object()
         if self.count:
